@@ -70,6 +70,14 @@ Definition ho_eqb : held_obs -> held_obs -> bool :=
 (* name, version and requirement set of an API-level extension *)
 Definition api_obs := (name * version * list name)%type.
 
+(* one observation point of a history that is observed several times (seeded round 4): the commands run since the
+   previous point, whether the session goes on with the LOADED object, and the same observations as for CHist *)
+Record seg := mkSeg { sg_cmds : list jcmd; sg_reload : bool; sg_before : ores; sg_after : ores;
+                      sg_own1 : owner_obs; sg_own2 : owner_obs; sg_api2 : option api_obs;
+                      (* the Extension OBJECT (built / loaded) read through its public attributes and put into the
+                         shape of a document by the harness, before anything is written at this point *)
+                      sg_view1 : ores; sg_view2 : ores }.
+
 Inductive case :=
 (* an extension built through the public API, serialised, loaded back, serialised again *)
 | CHist (n : name) (v : version) (reqs : list name) (cmds : list jcmd)
@@ -84,7 +92,11 @@ Inductive case :=
    document, document after a round trip, and per operation it holds (key, index of the Extension object
    that `get_extension()` returns, None if it is none of them or raises; requirement set) *)
 | CWorld (hdrs : list (name * version * list name)) (objs : list jcmd) (prog : list (nat * nat))
-         (obs : list (ores * ores * held_obs)).
+         (obs : list (ores * ores * held_obs))
+(* ONE Extension object over time: commands, observation (serialise, load back, serialise again, owners), more
+   commands on the same object (or on the loaded one), observation, ...: every observation is judged as the CHist
+   observation of the commands run so far *)
+| CSeq (n : name) (v : version) (reqs : list name) (segs : list seg).
 
 (* ---- what the document of a history-built extension must say, read off the commands without the model ----
    per kind, the keys are exactly the definition names that were added, and each entry shows ONE of the
@@ -193,16 +205,45 @@ Definition doc_wf (s : jext) : bool :=
              end) (se_ops s).
 Definition in_domain (must_load : bool) (doc : jext) : bool := must_load || doc_wf doc.
 
+Definition corr_hist (n : name) (v : version) (reqs : list name) (cmds : list jcmd)
+                     (before after : ores) (own1 own2 : owner_obs) (api2 : option api_obs) : bool :=
+  let e := build (new_ext n v reqs) (resolve n before cmds) in
+  let s := m_to_serial e in
+  ores_eqb before s && ores_eqb after (bind s m_reload) && oo_eqb own1 (m_owners e) &&
+  match bind s m_deserialize with
+  | Ok e2 => oo_eqb own2 (m_owners e2) && option_eqb api_eqb api2 (Some (m_api e2))
+  | Err _ => match api2 with None => true | Some _ => false end
+  end.
+(* every observation point of a CSeq with the commands run up to it *)
+Fixpoint seq_all (f : list jcmd -> seg -> bool) (acc : list jcmd) (segs : list seg) : bool :=
+  match segs with
+  | [] => true
+  | s :: r => let acc' := acc ++ sg_cmds s in f acc' s && seq_all f acc' r
+  end.
+(* the same case as a program of the session model (model/ExtDefs.v Section Session).  When no two commands
+   share a (kind, name) slot nothing is left to the oracle `resolve`, and the documents are also compared with the
+   session model run literally (observation points and reloads included); that the two agree in general is
+   theorem C10_session_documents *)
+Definition seq_prog (segs : list seg) : list (sstep json json json) :=
+  flat_map (fun s => map (@SAdd json json json) (sg_cmds s) ++ [if sg_reload s then @SLoad json json json else @SSer json json json]) segs.
+Definition m_session (n : name) (v : version) (reqs : list name) (segs : list seg) : list (res jext) :=
+  session jid jid jid jid (new_ext n v reqs) (seq_prog segs).
+Fixpoint all2 {A B} (f : A -> B -> bool) (a : list A) (b : list B) : bool :=
+  match a, b with
+  | [], [] => true
+  | x :: r, y :: s => f x y && all2 f r s
+  | _, _ => false
+  end.
+
 Definition corr (c : case) : bool :=
   match c with
-  | CHist n v reqs cmds before after own1 own2 api2 =>
-      let e := build (new_ext n v reqs) (resolve n before cmds) in
-      let s := m_to_serial e in
-      ores_eqb before s && ores_eqb after (bind s m_reload) && oo_eqb own1 (m_owners e) &&
-      match bind s m_deserialize with
-      | Ok e2 => oo_eqb own2 (m_owners e2) && option_eqb api_eqb api2 (Some (m_api e2))
-      | Err _ => match api2 with None => true | Some _ => false end
-      end
+  | CHist n v reqs cmds before after own1 own2 api2 => corr_hist n v reqs cmds before after own1 own2 api2
+  | CSeq n v reqs segs =>
+      seq_all (fun cs s => corr_hist n v reqs cs (sg_before s) (sg_after s) (sg_own1 s) (sg_own2 s) (sg_api2 s)) [] segs &&
+      (* the objects themselves against the model (same judgement, object views in place of the documents) *)
+      seq_all (fun cs s => corr_hist n v reqs cs (sg_view1 s) (sg_view2 s) (sg_own1 s) (sg_own2 s) (sg_api2 s)) [] segs &&
+      (if nodupb same_slot (flat_map sg_cmds segs)
+       then all2 ores_eqb (map sg_before segs) (m_session n v reqs segs) else true)
   | CShared hdrs objs prog obs =>
       let w := m_world hdrs objs prog in
       Nat.eqb (length obs) (length (w_exts w)) &&
@@ -281,18 +322,29 @@ Definition doc_kept (a b : jext) : bool :=
               json_eqb (sv_typed_value (snd x)) (sv_typed_value (snd y))) (se_values a) (se_values b) &&
   perm_eqb (fun x y : name * sopdef json json =>
               N.eqb (fst x) (fst y) && op_kept (se_name a) (snd x) (snd y)) (se_ops a) (se_ops b).
+Definition ores_view (doc view : ores) : bool :=
+  match doc, view with OOk x, OOk y => doc_corr x y | _, _ => false end.
+Definition mon_hist (n : name) (v : version) (reqs : list name) (cmds : list jcmd)
+                    (before after : ores) (own1 own2 : owner_obs) (api2 : option api_obs) : bool :=
+  ores_same before after && ores_owner before &&
+  owners_ok n own1 && owners_ok n own2 &&
+  match api2 with
+  | Some (n2, v2, r2) => N.eqb n2 n && version_eqb v2 v && set_eq r2 reqs
+  | None => false
+  end &&
+  match before with OOk s => N.eqb (se_name s) n && version_eqb (se_version s) v &&
+                             set_eq (se_reqs s) reqs && hist_doc_ok n cmds s
+               | _ => false end.
 Definition mon (c : case) : bool :=
   match c with
-  | CHist n v reqs cmds before after own1 own2 api2 =>
-      ores_same before after && ores_owner before &&
-      owners_ok n own1 && owners_ok n own2 &&
-      match api2 with
-      | Some (n2, v2, r2) => N.eqb n2 n && version_eqb v2 v && set_eq r2 reqs
-      | None => false
-      end &&
-      match before with OOk s => N.eqb (se_name s) n && version_eqb (se_version s) v &&
-                                 set_eq (se_reqs s) reqs && hist_doc_ok n cmds s
-                   | _ => false end
+  | CHist n v reqs cmds before after own1 own2 api2 => mon_hist n v reqs cmds before after own1 own2 api2
+  (* the document written at a point -- whatever was written or loaded before on the same object -- shows
+     exactly the definitions added up to that point, loads back, is written again unchanged, names the owner *)
+  | CSeq n v reqs segs =>
+      seq_all (fun cs s => mon_hist n v reqs cs (sg_before s) (sg_after s) (sg_own1 s) (sg_own2 s) (sg_api2 s) &&
+                           (* "serializing an extension": the document is the document OF THE OBJECT as it is now
+                              (not one it wrote earlier), and what is loaded back shows what its document says *)
+                           ores_view (sg_before s) (sg_view1 s) && ores_view (sg_after s) (sg_view2 s)) [] segs
   | CShared hdrs objs prog obs =>
       Nat.eqb (length obs) (length hdrs) &&
       forallb (fun oh : (ores * ores * owner_obs) * (name * version * list name) =>
